@@ -2,7 +2,7 @@
 import struct as _struct
 import types
 
-from . import vfs
+from . import vfs, symnp
 from .core import Unsupported
 
 json = types.ModuleType("json")
@@ -39,6 +39,8 @@ def _unpack(fmt, data):
     for ch, (kind, val) in zip(f, data.fields):
         if ch != kind:
             raise Unsupported("struct.unpack: field written as %r read as %r" % (kind, ch))
+        if ch == "f":
+            symnp.mark_single(val)      # a binary32 field: storing it into a float32 array is the identity
         out.append(val)
     return tuple(out)
 
